@@ -73,6 +73,20 @@ type vfConnPendingAnswer struct {
 	frame  *vfFrame
 }
 
+// vfConnOtherVersion: a protocol version with the same header layout as v, but not v
+func vfConnOtherVersion(v byte) byte {
+	switch v & 0x7f {
+	case 1:
+		return 2
+	case 2:
+		return 1
+	case 3:
+		return 4
+	default:
+		return 3
+	}
+}
+
 func vfConnOutcome(err error, echoed string, want string) string {
 	switch {
 	case err == nil:
@@ -90,6 +104,10 @@ func vfConnOutcome(err error, echoed string, want string) string {
 		return "closed"
 	case errors.Is(err, ErrNoStreams):
 		return "nostreams"
+	case strings.Contains(err.Error(), "unexpected protocol version in response") && strings.HasSuffix(want, "_badver"):
+		// the node answered THIS request with a frame of another protocol version: the caller is told so - the
+		// request's own answer, refused (its stream must be free again and the connection usable)
+		return "verr"
 	case strings.Contains(err.Error(), "vfgarbled"), strings.Contains(err.Error(), "unexpected protocol version in response"),
 		strings.Contains(err.Error(), "unsupported protocol response version"):
 		// the scripted node only ever sends well-formed answers: the caller was handed bytes that are
@@ -237,6 +255,12 @@ func vfRunConnScenario(cfg vfConnScenarioCfg) (events []map[string]interface{}, 
 				// the response arrives in two pieces, the gap longer than the driver's read deadline
 				fr := vfEncodeFrame(f.Version, 0, f.Stream, vfOpResult, vfSetKeyspaceBody(tok))
 				nc.SendSplit(fr, vfHeaderLen(f.Version)+3, driverTimeout+driverTimeout/2)
+				return
+			}
+			if fate == "badver" {
+				// a complete, well-formed answer on the request's stream whose header carries ANOTHER protocol version
+				// (same header layout): a proxy or a node answering with its own version
+				nc.Send(vfEncodeFrame(vfConnOtherVersion(f.Version), 0, f.Stream, vfOpResult, vfSetKeyspaceBody(tok)))
 				return
 			}
 			if fate == "err" {
@@ -566,6 +590,8 @@ func vfRunConnScenario(cfg vfConnScenarioCfg) (events []map[string]interface{}, 
 					fate = "err"
 				case x < 60 && cfg.Kind == "mixed":
 					fate = "perr"
+				case x < 72 && cfg.Kind == "mixed":
+					fate = "badver"
 				case x < 40 && cfg.Kind == "badflag":
 					fate = "cflag"
 				case x < 65 && cfg.Kind == "wtimeout":
